@@ -35,3 +35,9 @@ template LabeledUndirectedGraph<NoLabel> loadBinaryEdgeList<LabeledUndirectedGra
 template void writeBinaryEdgeList<LabeledDirectedGraph, NoLabel>(const LabeledDirectedGraph<NoLabel> &, const std::string &);
 template void writeBinaryEdgeList<LabeledUndirectedGraph, NoLabel>(const LabeledUndirectedGraph<NoLabel> &, const std::string &);
 }}
+// ---- breadth-first predecessor searches (paths.hpp)
+namespace BaseGraph { namespace algorithms {
+template Predecessors findVertexPredecessors<LabeledDirectedGraph, NoLabel>(const LabeledDirectedGraph<NoLabel> &, VertexIndex);
+template Predecessors findVertexPredecessors<LabeledUndirectedGraph, NoLabel>(const LabeledUndirectedGraph<NoLabel> &, VertexIndex);
+template MultiplePredecessors findAllVertexPredecessors<LabeledDirectedGraph, NoLabel>(const LabeledDirectedGraph<NoLabel> &, VertexIndex);
+}}
